@@ -4,7 +4,50 @@
 package tdx
 
 //@ func UnsignedTDX
+//@   requires tdxRequest != nil
+//@   ensures[C06] err == nil ==> result.Svn == tdxRequest.Svn
 //@   modifies pbsrc, pbok
 //@   assigns nothing
 //@   ghostset tdxImage = val(uefi)
 //@   ensures err == nil ==> result != nil && fresh(result)
+
+// MRTD is represented at this level by an uninterpreted function of the image and the launch options; its
+// body is the subject of C05/C08. Whether it fails does not depend on DisableUnacceptedMemory (the flag only
+// selects one attribute bit of equally-sized TD HOB resource descriptors, ovmf/tdx_data.go getTDHOBList), which
+// is what makes the discarded error of the second call in generateAllPossibleMRTDs unreachable; this clause is
+// an assumed (unverified) part of the contract.
+//@ func MRTD
+//@   requires opts != nil
+//@   assigns nothing
+//@   modifies pbsrc, pbok
+//@   ensures err == nil ==> val(result0) == mrtdOf(val(fw), banksOf(opts.GuestRAMBanks), opts.DisableUnacceptedMemory, opts.MeasureAllRegions)
+//@   ensures (err != nil) == mrtdFails(val(fw), banksOf(opts.GuestRAMBanks), opts.MeasureAllRegions)
+
+//@ func machineTypeToRAMBanks trusted
+//@   assigns nothing
+//@   ensures banksOf(result0) == shapeBanks(machineType)
+
+//@ func LaunchOptionsDefaultTDHOBBug
+//@   assigns nothing
+//@   ensures[C06] result != nil && fresh(result) && banksOf(result.GuestRAMBanks) == shapeBanks(machineType) && !result.DisableUnacceptedMemory && result.MeasureAllRegions
+
+//@ func LaunchOptionsDefault
+//@   assigns nothing
+//@   ensures[C06] result != nil && fresh(result) && same(result.GuestRAMBanks, nil) && !result.DisableUnacceptedMemory && !result.MeasureAllRegions
+
+//@ func generateAllPossibleMRTDs
+//@   requires tdxRequest != nil
+//@   assigns nothing
+//@   modifies pbsrc, pbok
+//@   ghostparam a Int
+//@   ensures[C06] err == nil ==> len(result0) == ite(tdxRequest.IncludeEarlyAccept, 2 * len(tdxRequest.MachineShapes), len(tdxRequest.MachineShapes)) + 1
+//@   ensures[C06] err == nil && 0 <= a && a < len(result0) ==> result0[a] != nil && len(result0[a].Mrtd) == 48
+//@   ensures[C06] err == nil && 0 <= a && a < len(result0) - 1 && tdxRequest.IncludeEarlyAccept ==> result0[a].EarlyAccept == (a % 2 == 1) && val(result0[a].Mrtd) == mrtdOf(val(uefi), shapeBanks(tdxRequest.MachineShapes[a / 2]), a % 2 == 1, true)
+//@   ensures[C06] err == nil && 0 <= a && a < len(result0) - 1 && !tdxRequest.IncludeEarlyAccept ==> !result0[a].EarlyAccept && val(result0[a].Mrtd) == mrtdOf(val(uefi), shapeBanks(tdxRequest.MachineShapes[a]), false, true)
+//@   ensures[C06] err == nil ==> len(result0) >= 1 && result0[len(result0) - 1] != nil
+//@   ensures[C06] err == nil ==> !result0[len(result0) - 1].EarlyAccept && result0[len(result0) - 1].RamGib == 0
+//@   ensures[C06] err == nil ==> val(result0[len(result0) - 1].Mrtd) == mrtdOf(val(uefi), banksOf(nil), false, false)
+//@   loop 1 invariant len(result) == ite(tdxRequest.IncludeEarlyAccept, 2 * (rangeindex + 1), rangeindex + 1) && (ref(result) == 0 || fresh(result))
+//@   loop 1 invariant 0 <= a && a < len(result) ==> result[a] != nil && fresh(result[a]) && len(result[a].Mrtd) == 48 && fresh(result[a].Mrtd)
+//@   loop 1 invariant 0 <= a && a < len(result) && tdxRequest.IncludeEarlyAccept ==> result[a].EarlyAccept == (a % 2 == 1) && val(result[a].Mrtd) == mrtdOf(val(uefi), shapeBanks(tdxRequest.MachineShapes[a / 2]), a % 2 == 1, true)
+//@   loop 1 invariant 0 <= a && a < len(result) && !tdxRequest.IncludeEarlyAccept ==> !result[a].EarlyAccept && val(result[a].Mrtd) == mrtdOf(val(uefi), shapeBanks(tdxRequest.MachineShapes[a]), false, true)
